@@ -25,7 +25,9 @@ VERIF = os.path.dirname(os.path.dirname(os.path.abspath(__file__)))
 COQ = os.path.join(VERIF, "coq")
 OCAML = os.path.join(VERIF, "ocaml")
 BIN = os.path.join(VERIF, "bin")
-EVID = os.path.join(VERIF, "evidence")
+# evidence of runs against /repo itself; runs against a modified scratch copy (INFRETIS_REPO, used for
+# seeded changes) write theirs elsewhere so that the committed evidence always describes /repo
+EVID = os.path.join(VERIF, "evidence" if os.path.realpath(os.environ.get("INFRETIS_REPO", "/repo")) == "/repo" else "evidence_scratch")
 REPLAYS = os.path.join(VERIF, "replays")
 REPO = os.environ.get("INFRETIS_REPO", "/repo")
 LOCK = os.path.join(VERIF, ".build.lock")
